@@ -185,6 +185,9 @@ def plan(prop, tier):
         P["dims"] = {"c19_walk": [dims("store", nkeys=3, concr="edge", seed=sd0 + i, compaction=c, deferredSort=(i % 2 == 1), cachePersisted=False)
                                   for i, c in enumerate(["disable", "force", "allow", "disable"] if q else ["disable", "force", "allow"] * 4)]
 }
+        P["sim"].append(("c19_walk_zero", C(NKeys=2, MaxBatches=6, MaxOps=1, MaxPokes=2, SimLen=22, MaxReopens=1, OpAlpha='{"s1","se","d"}'), 80 if q else 500))
+        P["dims"]["c19_walk_zero"] = [dims("store", nkeys=2, concr="emptykey"), dims("store", nkeys=2, concr="emptykey", compaction="force"), dims("mem", nkeys=2, concr="emptykey")] if False else \
+            [dims("store", nkeys=2, concr="emptykey"), dims("store", nkeys=2, concr="emptykey", compaction="force")]
         P["relevant"] = r"^(snapshot|coll|lower|reopen|heldsnap)"
         P["rule"] = ("the data-path behaviours replayed under seeded adversarial concretisations (empty key, 0x00/0xFF, magic-like bytes, prefix-sharing keys, empty values); "
                      "non-trivial = two or more sections non-empty at some observation")
